@@ -377,6 +377,10 @@ class Interp:
             self.exec_block(node.body, env)
         except _Return as r:
             return GenList(env.vars["__yields__"]) if is_gen else r.v
+        except Raised as r:
+            if is_gen and r.exc.tname == "StopIteration":      # PEP 479: StopIteration escaping a generator body
+                raise Raised(ExcVal("RuntimeError", ("generator raised StopIteration",)), r.node if hasattr(r, "node") else None)
+            raise
         return GenList(env.vars["__yields__"]) if is_gen else None
 
     def _bind(self, a: ast.arguments, args, kwargs, env: Env, relpath, cls):
